@@ -6,5 +6,5 @@ CHECKERS = dict(C08_rt.CHECKERS)
 
 
 def run(ctx):
-    api.run_vcs(ctx, C08_vc.vcs(ctx), {"C08.draw.bounds": "spec_augment_draw_parameters: every drawn width/count/start/centre/shift respects the absolute and length-proportional limits, for all lengths, T, F, limits and uniform draws in [0,1)"})
+    api.run_vcs(ctx, C08_vc.vcs(ctx), {"C08.P.draw_bounds": "spec_augment_draw_parameters: every drawn width/count/start/centre/shift respects the absolute and length-proportional limits, for all lengths, T, F, limits and uniform draws in [0,1)"})
     C08_rt.run_bounded(ctx)
